@@ -220,7 +220,13 @@ class Body:
                     dq.append(s)
         return seen
 
-    def reach_ps(self, start, avoid_blocks=()):
+    def return_variants_ps(self, start):
+        """Variants (Ok / Err / Some / None / ... or None when unknown) the return place holds at the returns reachable from `start`, tracked like reach_ps."""
+        self._ret_tags = []
+        self.reach_ps(start, _collect=True)
+        return list(self._ret_tags)
+
+    def reach_ps(self, start, avoid_blocks=(), _collect=False):
         """Blocks reachable from `start` over normal edges with a little path sensitivity: the variant (Ok/Err, Continue/Break) of
         Result / ControlFlow values built on the path is tracked through moves, `Try::branch` and `discriminant`, and a switch on a known
         variant follows only the matching arm.  (Needed once a Result-returning helper is inlined: its `return Err(..)` and `Ok(())`
@@ -260,6 +266,8 @@ class Body:
                     tags.pop(l, None)
             t = bb["term"]
             succs = self.succs(bi)
+            if _collect and t["k"] == "return":
+                self._ret_tags.append(tags.get(0) if isinstance(tags.get(0), str) else None)
             if t["k"] == "call" and not t["dest"]["p"]:
                 d = t["dest"]["l"]
                 nm = t.get("callee", "")
